@@ -134,34 +134,63 @@ def pydMagnitude (l : List Char) : Option Int :=
   | _ => none
 
 def pydDurationChars : List Char := ['P', 'T', 'Y', 'M', 'W', 'D', 'H', 'S', '+', '-']
-/-- the further characters of the spellings not modelled: fractions, `D days, HH:MM:SS`, `3d` -/
-def pydOtherFormChars : List Char := ['.', ',', ':', ' ', 'd', 'a', 'y', 's']
+/-- the characters speedate's other spellings (`3d`, `1 day`, `2 days, 10:20:30.5`, `95:13`, `4DAY`) are made of -/
+def pydDayTimeChars : List Char := [':', '.', ',', ' ', 'd', 'D', 'a', 'A', 'y', 'Y', 's', 'S']
 
-/-- pydantic's `timedelta` from a string.  Strings over `[0-9PTYMWDHS+-]` are decided exactly;
-    the other accepted spellings (fractions, `D days, HH:MM:SS`, `3d` …) are `unsupported`. -/
+/-- the text after one optional sign -/
+def signedBody (l : List Char) : List Char :=
+  match l with
+  | '+' :: r => r
+  | '-' :: r => r
+  | r => r
+
+/-- pydantic's (speedate's) `timedelta` from a string, established by experiment.  After one optional sign:
+    * `P…` is the ISO form: every character is consumed as `T`, as part of a number (digits with a
+      `.`/`,` fraction) or as a unit, so any other character — white space, lower case, a second sign —
+      is refused; without a fraction the value is decided exactly (`pydMagnitude`); a fraction goes
+      through `f64` arithmetic and is `unsupported`;
+    * anything else is one of the `[N [ ]d[ay[s]][,][ ]][[H]:MM[:SS[.f]]]` spellings: a character outside
+      `pydDayTimeChars`, or neither a `d`/`D` nor a `:` anywhere, is refused (so a bare number is not
+      seconds: refused); the spellings themselves are `unsupported`.
+    No trimming: leading / trailing white space is refused in both forms. -/
 def pydDuration (s : String) : Res (Option Int) :=
   let l := s.toList
-  if l.isEmpty then pure none
-  else if l.any (fun c => !(isAsciiDigit c || pydDurationChars.contains c || pydOtherFormChars.contains c)) then
-    pure none      -- a character none of speedate's duration spellings uses
-  else if !(l.all fun c => isAsciiDigit c || pydDurationChars.contains c) then unsupported
-  else match l with
-    | '-' :: 'P' :: r =>
-      match pydMagnitude ('P' :: r) with
+  if l.isEmpty then pure none else
+  let body := signedBody l
+  if body.head? == some 'P' then
+    if body.any (fun c => !(isAsciiDigit c || pydDurationChars.contains c || c == '.' || c == ',')) then pure none
+    else if body.any (fun c => c == '.' || c == ',') then unsupported
+    else if l.head? == some '-' then
+      match pydMagnitude body with
       | some m => if tdRangeOk (-m) then pure (some (-m)) else err .overflow
       | none => pure none
-    | '+' :: 'P' :: r => pure (pydMagnitude ('P' :: r))
-    | 'P' :: r => pure (pydMagnitude ('P' :: r))
-    | r =>
-      -- not the ISO form: bare (signed) digits are refused, `1D` / `+1D` are the `N d` spelling
-      if (parseCleanInt r).isSome || !r.any isAsciiDigit then pure none else unsupported
+    else pure (pydMagnitude body)
+  else
+    if body.any (fun c => !(isAsciiDigit c || pydDayTimeChars.contains c)) then pure none
+    else if !body.any (fun c => c == 'd' || c == 'D' || c == ':') then pure none
+    else unsupported
 
-/-- whole seconds (an `int`, `bool` or integral `float`) as a pydantic `timedelta` -/
+def i64Limit : Int := 9223372036854775808     -- 2^63
+
+/-- whole seconds given as an `int` (or `bool`) as a pydantic `timedelta`, established by experiment:
+    the magnitude must fit an `i64` (`-2^63` included); it is split into days and seconds and the DAY
+    COUNT IS A `u32` THAT WRAPS (`2^32 · 86400` seconds load as a zero duration); more than 999 999 999
+    days after wrapping are refused; a negative value whose Python `timedelta` would have
+    `days < -999999999` raises `OverflowError` instead. -/
 def pydDurationOfSeconds (i : Int) : Res (Option Int) :=
-  -- outside the `timedelta` range pydantic's answer depends on the magnitude in ways not modelled
-  -- (refused, OverflowError, or re-read in another unit near ±2^63)
-  if i ≥ (maxTdDays + 1) * 86400 || i < -(maxTdDays * 86400) then unsupported
-  else pure (some (i * usPerSec))
+  if i < -i64Limit || i ≥ i64Limit then pure none else
+  let a := i.natAbs
+  let d := (a / 86400) % 4294967296
+  let tot : Int := ((d * 86400 + a % 86400 : Nat) : Int)
+  if d > 999999999 then pure none
+  else if i < 0 then (if tdRangeOk (-(tot * usPerSec)) then pure (some (-(tot * usPerSec))) else err .overflow)
+  else pure (some (tot * usPerSec))
+
+/-- whole seconds given as an integral `float`: no wrapping (the cast to the day count saturates), so
+    everything from 10^9 days on is refused; the negative `OverflowError` sliver as for `int` -/
+def pydDurationOfFloat (i : Int) : Res (Option Int) :=
+  if i ≥ (maxTdDays + 1) * 86400 || i ≤ -((maxTdDays + 1) * 86400) then pure none
+  else if tdRangeOk (i * usPerSec) then pure (some (i * usPerSec)) else err .overflow
 
 def splitDigits (l : List Char) : List Char × List Char := (l.takeWhile isAsciiDigit, l.dropWhile isAsciiDigit)
 
@@ -213,7 +242,7 @@ def parseDate (l : List Char) : Option (Int × Int × Int × List Char) :=
     pure (yh * 100 + yl, m, d, rest)
   | _ => none
 
-/-- `Z`, `z`, `±HH:MM`, `±HHMM` or nothing: `some none` naive, `some (some secs)` aware -/
+/-- `Z`, `z`, `±HH:MM`, `±HHMM` (hours ≤ 23, minutes ≤ 59) or nothing: `some none` naive, `some (some secs)` aware -/
 def parseTz (l : List Char) : Option (Option Int) :=
   let hm (sign : Int) (h1 h2 m1 m2 : Char) : Option (Option Int) := do
     let h ← num2 h1 h2; let m ← num2 m1 m2
@@ -226,10 +255,20 @@ def parseTz (l : List Char) : Option (Option Int) :=
   | ['-', h1, h2, ':', m1, m2] => hm (-1) h1 h2 m1 m2
   | ['+', h1, h2, m1, m2] => hm 1 h1 h2 m1 m2
   | ['-', h1, h2, m1, m2] => hm (-1) h1 h2 m1 m2
+  | ['\u2212', h1, h2, ':', m1, m2] => hm (-1) h1 h2 m1 m2     -- U+2212 MINUS SIGN is accepted too
+  | ['\u2212', h1, h2, m1, m2] => hm (-1) h1 h2 m1 m2
   | _ => none
 
-/-- `HH:MM[:SS[.f{1,6}]]` then the zone: (µs of day, zone) -/
+/-- `HH:MM[:SS[(.|,)f+]]` then the zone: (µs of day, zone).  Fraction digits beyond the sixth are
+    dropped (speedate's default `MicrosecondsPrecisionOverflowBehavior::Truncate`). -/
 def parseTimeTz (l : List Char) : Option (Int × Option Int) :=
+  let fraction (h m s : Int) (rest3 : List Char) : Option (Int × Option Int) :=
+    let (fs, rest4) := splitDigits rest3
+    if fs.isEmpty then none else do
+      let fs6 := fs.take 6
+      let frac : Int := (digitsVal fs6 * 10 ^ (6 - fs6.length) : Nat)
+      let tz ← parseTz rest4
+      pure ((h * 3600 + m * 60 + s) * usPerSec + frac, tz)
   match l with
   | h1 :: h2 :: ':' :: m1 :: m2 :: rest => do
     let h ← num2 h1 h2; let m ← num2 m1 m2
@@ -239,12 +278,8 @@ def parseTimeTz (l : List Char) : Option (Int × Option Int) :=
       let s ← num2 s1 s2
       if s > 59 then none else
       match rest2 with
-      | '.' :: rest3 =>
-        let (fs, rest4) := splitDigits rest3
-        if fs.isEmpty || fs.length > 6 then none else do
-          let frac : Int := (digitsVal fs * 10 ^ (6 - fs.length) : Nat)
-          let tz ← parseTz rest4
-          pure ((h * 3600 + m * 60 + s) * usPerSec + frac, tz)
+      | '.' :: rest3 => fraction h m s rest3
+      | ',' :: rest3 => fraction h m s rest3
       | _ => do
         let tz ← parseTz rest2
         pure ((h * 3600 + m * 60 + s) * usPerSec, tz)
@@ -262,24 +297,40 @@ def pydDatetime (s : String) : Res (Option (Int × Option Int)) :=
   let l := s.toList
   if !l.any isAsciiDigit then pure none else
   match parseDate l with
-  | none => unsupported
+  | none =>
+    -- not `YYYY-MM-DD…`: speedate falls back to a unix timestamp, `[+-]?[0-9]*[.]?[0-9]*` with a digit
+    -- (clean integers are handled by the caller; a fraction goes through f64 arithmetic: not modelled),
+    -- and refuses everything else — no trimming, no underscores, no exponent
+    if l.all (fun c => isAsciiDigit c || c == '+' || c == '-' || c == '.') && l.contains '.' then unsupported
+    else pure none
   | some (y, m, d, rest) =>
     let dateOk := decide (1 ≤ y) && decide (1 ≤ m) && decide (m ≤ 12) && decide (1 ≤ d) && decide (d ≤ daysInMonth y m)
     let day := daysFromCivil y m d * usPerDay
     match rest with
-    | [] => if dateOk then pure (some (day, none)) else (if y == 0 then unsupported else pure none)
+    | [] => if dateOk then pure (some (day, none)) else pure none    -- year 0: refused by `datetime`
     | sep :: t =>
-      if !(sep == 'T' || sep == 't' || sep == ' ' || sep == '_') then unsupported else
+      if !(sep == 'T' || sep == 't' || sep == ' ' || sep == '_') then pure none else
       match parseTimeTz t with
-      | none => unsupported
+      | none => pure none
       | some (tod, tz) =>
-        if y == 0 then unsupported
+        if y == 0 then pure none
         else if !dateOk then pure none
         else
           let inst := day + tod - (tz.getD 0) * usPerSec
           -- the year 1 / 9999 edges where the zone pushes the instant out of range
           if y == 1 || y == 9999 then (if tz.isSome && tz != some 0 then unsupported else pure (some (inst, tz)))
           else pure (some (inst, tz))
+
+def msWatershed : Int := 20000000000
+/-- first / last instant (µs) pydantic makes out of a number: 0001-01-01T00:00:00Z … 9999-12-31T23:59:59.999999Z -/
+def minTimestampUs : Int := -62135596800000000
+def maxTimestampUs : Int := 253402300799999999
+
+/-- pydantic's `datetime` from a whole number (speedate `from_timestamp`): seconds since the epoch when
+    `|i| ≤ 2·10^10`, otherwise MILLISECONDS; outside the years 1–9999 refused.  The result is aware, UTC. -/
+def pydDatetimeOfNumber (i : Int) : Option (Int × Option Int) :=
+  let us := if -msWatershed ≤ i && i ≤ msWatershed then i * usPerSec else i * 1000
+  if minTimestampUs ≤ us && us ≤ maxTimestampUs then some (us, some 0) else none
 
 /-! ### paths -/
 
@@ -303,6 +354,17 @@ def pathIsClean (s : String) : Bool :=
       | r => r
     !body.isEmpty && body.all (fun seg => !seg.isEmpty && seg != ['.']) && !l.contains '\x00'
 
+/-- `str(PurePosixPath(s))`: empty and `.` segments dropped, slashes collapsed (exactly two leading
+    slashes are kept), no trailing slash, the empty path is `.`; `..` is kept -/
+def posixPathNorm (s : String) : String :=
+  let l := s.toList
+  let root : List Char :=
+    if l.take 2 == ['/', '/'] && l.take 3 != ['/', '/', '/'] then ['/', '/']
+    else if l.take 1 == ['/'] then ['/'] else []
+  let segs := (splitOn '/' l).filter fun seg => !seg.isEmpty && seg != ['.']
+  let body := List.intercalate ['/'] segs
+  if root.isEmpty && body.isEmpty then "." else String.ofList (root ++ body)
+
 /-! ### scalars -/
 
 def boolTrueWords : List String := ["1", "on", "t", "true", "y", "yes"]
@@ -318,6 +380,55 @@ def inBounds (ge le gt : Option Int) (i : Int) : Bool :=
 
 def floatExactLimit : Int := 9007199254740992     -- 2^53
 
+/-- Rust `char::is_whitespace` (the Unicode `White_Space` property): what `str::trim` strips.
+    (Not Python's `str.isspace`: U+001C–U+001F are not in it.) -/
+def isRustWhitespace (c : Char) : Bool :=
+  let n := c.toNat
+  (9 ≤ n && n ≤ 13) || n == 32 || n == 0x85 || n == 0xA0 || n == 0x1680 || (0x2000 ≤ n && n ≤ 0x200A) ||
+  n == 0x2028 || n == 0x2029 || n == 0x202F || n == 0x205F || n == 0x3000
+
+def trimBy (p : Char → Bool) (l : List Char) : List Char :=
+  ((l.dropWhile p).reverse.dropWhile p).reverse
+
+/-- `[0-9]+(_[0-9]+)*`: the digits, underscores removed (`none`: not of that shape) -/
+def underscoredDigits (l : List Char) : Option (List Char) :=
+  let gs := splitOn '_' l
+  if gs.all (fun g => !g.isEmpty && g.all isAsciiDigit) then some gs.flatten else none
+
+/-- a `.0+` suffix removed (pydantic-core `strip_decimal_zeros`); anything else unchanged -/
+def stripDecimalZeros (l : List Char) : List Char :=
+  let r := l.reverse
+  match r.dropWhile (· == '0') with
+  | '.' :: rest => if (r.takeWhile (· == '0')).isEmpty then l else rest.reverse
+  | _ => l
+
+/-- CPython's / pydantic-core's limit on the length of a decimal integer string -/
+def maxIntStrLen : Nat := 4300
+
+/-- pydantic-core `str_as_int` (lax `int` from a `str`), established by experiment (pydantic 2.13 /
+    pydantic-core 2.46; exhaustively over `[0_5+-. ]{1,6}`): Unicode white space trimmed, one optional
+    sign, an optional `.0+` suffix, then decimal digits in groups separated by single underscores, of any
+    magnitude (big integers) — except that after a LEADING ZERO any run of zeros and underscores is skipped
+    first (`0__5` is 5 although `1__5` is refused), provided the text neither starts nor ends with an
+    underscore.  No other character is accepted — in particular no non-ASCII digit.
+    `unsupported`: strings beyond the 4300-character limit (refused or not depending on leading zeros),
+    and text over `[0-9_+-]` with a sign somewhere after a leading zero (`0_-5` is read as -5, `0-05` is
+    refused: not modelled; with any other character it is refused). -/
+def pydStrInt (s : String) : Res (Option Int) :=
+  let l := trimBy isRustWhitespace s.toList
+  if l.length > maxIntStrLen then unsupported else
+  let b := stripDecimalZeros (signedBody l)
+  let signed (n : Nat) : Int := if l.head? == some '-' then -(n : Int) else (n : Int)
+  if b.any (fun c => !(isAsciiDigit c || c == '_' || c == '+' || c == '-')) then pure none
+  else if b.head? == some '0' && b.any (fun c => c == '+' || c == '-') then unsupported
+  else if b.head? == some '_' || b.getLast? == some '_' then pure none
+  else
+    let b' := if b.head? == some '0' then b.dropWhile (fun c => c == '0' || c == '_') else b
+    if b.head? == some '0' && b'.isEmpty then pure (some 0)
+    else match underscoredDigits b' with
+      | some ds => pure (some (signed (digitsVal ds)))
+      | none => pure none
+
 /-- the integer a lax pydantic `int` makes of a value: `ok (some i)`, `ok none` = refused -/
 def laxInt (v : CVal) : Res (Option Int) :=
   match v with
@@ -326,12 +437,10 @@ def laxInt (v : CVal) : Res (Option Int) :=
   | .float t integral =>
     if !integral then pure none      -- int_from_float / finite_number
     else match t with
-      | some i => if -floatExactLimit < i && i < floatExactLimit then pure (some i) else unsupported
+      -- `float_as_int`: strictly between `i64::MIN as f64` and `i64::MAX as f64` (= ±2^63), else int_parsing_size
+      | some i => pure (if -i64Limit < i && i < i64Limit then some i else none)
       | none => pure none
-  | .str s =>
-    match strInt s with
-    | some r => pure r
-    | none => unsupported
+  | .str s => pydStrInt s
   | _ => pure none
 
 /-- one scalar alternative, in strict or lax mode -/
@@ -378,9 +487,8 @@ def valScalar (env : Env) (strict : Bool) (sc : Scalar) (v : CVal) : Res (Option
       | .float t integral =>
         match t with
         | none => pure none                       -- inf / nan
-        | some i => if integral && -floatExactLimit < i && i < floatExactLimit
-                    then do let r ← pydDurationOfSeconds i; pure (r.map .td)
-                    else unsupported
+        | some i => if integral then do let r ← pydDurationOfFloat i; pure (r.map .td)
+                    else unsupported               -- a fraction is not in the tree encoding
       | .str s => do let r ← pydDuration s; pure (r.map .td)
       | _ => pure none
   | .datetime =>
@@ -390,17 +498,20 @@ def valScalar (env : Env) (strict : Bool) (sc : Scalar) (v : CVal) : Res (Option
       if strict then pure none else
       match v with
       | .date d => pure (some (.ts (d * usPerDay) none))
-      | .int i =>
-        if -20000000000 ≤ i && i ≤ 20000000000 then pure (some (.ts (i * usPerSec) (some 0))) else unsupported
+      | .int i => pure ((pydDatetimeOfNumber i).map fun (us, off) => .ts us off)
       | .float t integral =>
         match t with
-        | some i => if integral && -20000000000 ≤ i && i ≤ 20000000000
-                    then pure (some (.ts (i * usPerSec) (some 0))) else unsupported
-        | none => unsupported
+        -- an integral float is the same number as the int (from 2^53 on it is out of range either way);
+        -- a fraction is not in the tree encoding
+        | some i => if integral
+                    then pure ((pydDatetimeOfNumber i).map fun (us, off) => .ts us off) else unsupported
+        | none => pure none                        -- inf / nan
       | .str s =>
         match parseCleanInt s.toList with
         | some i =>
-          if -20000000000 ≤ i && i ≤ 20000000000 then pure (some (.ts (i * usPerSec) (some 0))) else unsupported
+          -- speedate reads the digits as an `i64`; beyond it the float fallback decides (always refused: not modelled)
+          if -i64Limit < i && i < i64Limit then pure ((pydDatetimeOfNumber i).map fun (us, off) => .ts us off)
+          else unsupported
         | none => do let r ← pydDatetime s; pure (r.map fun (us, off) => .ts us off)
       | _ => pure none
   | .filePath =>
@@ -412,7 +523,7 @@ def valScalar (env : Env) (strict : Bool) (sc : Scalar) (v : CVal) : Res (Option
     | _ => pure none
   | .path =>
     match v with
-    | .str s => if strict then pure none else if pathIsClean s then pure (some (.str s)) else unsupported
+    | .str s => if strict then pure none else pure (some (.str (posixPathNorm s)))
     | _ => pure none
   | .algByName =>
     -- `algorithm_by_name` (mode="before"): `AlgorithmDNSSEC[v]`; KeyError → ValueError → collected;
@@ -644,13 +755,45 @@ def transformDnsTtl (fallback : Option CVal) (kvs : List (CVal × CVal)) : Res (
     | _ => err .type
   | _, _ => pure kvs
 
+/-- is the tree value hashable (usable as a `dict` key)?  lists and mappings are not -/
+def hashable : CVal → Bool
+  | .list _ => false
+  | .map _ => false
+  | _ => true
+
+/-- one element of the sequence given to `dict(…)`: it must be iterable (else TypeError) with exactly
+    two items (else ValueError), the first of them hashable (else TypeError).  A two-character string
+    gives its characters, a two-entry mapping its two keys. -/
+def dictPairOf (x : CVal) : Res (CVal × CVal) :=
+  match x with
+  | .list [k, v] => if hashable k then pure (k, v) else err .type
+  | .list _ => err .value
+  | .str s =>
+    match s.toList with
+    | [a, b] => pure (.str (String.ofList [a]), .str (String.ofList [b]))
+    | _ => err .value
+  | .map [(k1, _), (k2, _)] => pure (k1, k2)
+  | .map _ => err .value
+  | _ => err .type              -- `cannot convert dictionary update sequence element #i to a sequence`
+
+/-- `dict(list)`: the elements in order, the first bad one raises.  When every element is a pair the
+    result is decided only for distinct string keys (no overwriting, no int-vs-bool key folding). -/
+def dictOfPairs : List CVal → Res (List (CVal × CVal))
+  | [] => pure []
+  | x :: r => do
+    let kv ← dictPairOf x
+    let rest ← dictOfPairs r
+    match kv.1 with
+    | .str name => if rest.any (fun q => isStrKey name q.1) then unsupported else pure (kv :: rest)
+    | _ => unsupported
+
 /-- `dict(config)` -/
 def topLevelDict (c : CVal) : Res (List (CVal × CVal)) :=
   match c with
   | .map kvs => pure kvs
-  | .list [] => pure []
-  | .str s => if s.isEmpty then pure [] else unsupported
-  | .list _ => unsupported
+  -- a non-empty string: element #0 is a one-character string, `length 1; 2 is required`
+  | .str s => if s.isEmpty then pure [] else err .value
+  | .list xs => dictOfPairs xs
   | _ => err .type              -- `'NoneType' object is not iterable`
 
 def transformConfig (fallback : Option CVal) (c : CVal) : Res (List (CVal × CVal)) := do
